@@ -3,6 +3,7 @@ C11 — GROUP BY yields one row per group with correct count, distinct count and
 -/
 import BW.Proofs.QueryPost
 import BW.Proofs.HooksHead
+import BW.Proofs.GroupKey
 
 namespace BW.Props.C11
 open BW.Model BW.Proofs.QueryPost
@@ -63,6 +64,18 @@ theorem sum_defined (xs : List Int) (h : ∀ pre, pre <+: xs → inInt64 (pre.fo
 example : sumEngine [9223372036854775807, 1] = .error .sumOverflow ∧
     sumEngine [4611686018427387904, 4611686018427387903] = .ok 9223372036854775807 := ⟨by rfl, by rfl⟩
 
+/-- The composite key of a group identifies its grouping values: `Table.Reduce` writes every grouping value as
+    `<length>:<value>;` (7f64a50; the pinned tree joined the values with `;`, so `("a;b","c")` and `("a","b;c")`
+    were one group), and two rows get the same key string exactly when their lists of component keys — the
+    model's `groupId` — are equal, whatever bytes the values hold. -/
+theorem group_key_identifies_the_values (ks ks' : List Bytes) :
+    BW.Proofs.GroupKey.encKey ks = BW.Proofs.GroupKey.encKey ks' ↔ ks = ks' :=
+  ⟨BW.Proofs.GroupKey.encKey_inj ks ks', fun h => by rw [h]⟩
+
+/-- … which joining with `;` did not: the two lists `["a;b", "c"]` and `["a", "b;c"]` give `a;b;c;`. -/
+example : ([[97, 59, 98], [99]] : List Bytes).flatMap (fun k => k ++ [59]) = ([[97], [98, 59, 99]] : List Bytes).flatMap (fun k => k ++ [59]) := by
+  decide
+
 /-- GROUP BY means what it says: the keys the semantic hook (`groupByBindings`) collects are the bindings
     listed, in order; `GROUP`, `BY` and the commas change nothing. -/
 theorem group_by_means_its_tokens (gs : List Bytes) (h : BW.Model.Hooks.Head) :
@@ -83,3 +96,4 @@ end BW.Props.C11
 #print axioms BW.Props.C11.sum_is_arithmetic
 #print axioms BW.Props.C11.sum_defined
 #print axioms BW.Props.C11.group_by_means_its_tokens
+#print axioms BW.Props.C11.group_key_identifies_the_values
